@@ -133,6 +133,40 @@ def inner_target(x, l):
 decorated = deco(inner_target)
 
 
+def reent_target(x, l):
+  if x == 1:
+    l.append('re')
+  return ('reent', x * K)
+
+
+class _Trigger(object):
+  """A module global whose inspection runs user code that converts another
+  function (what a lazily loaded module does on first attribute access): a
+  conversion started while another one is in progress on the same thread."""
+  fired = False
+
+  @property
+  def __module__(self):
+    if not _Trigger.fired:
+      import sys
+      f = sys._getframe(1)
+      outer = None
+      while f is not None:
+        if f.f_code.co_name == 'transform_function' and 'fn' in f.f_locals:
+          outer = f.f_locals['fn']
+          break
+        f = f.f_back
+      # (converting reent_target from inside its own conversion would transform it twice by design)
+      if outer is not None and getattr(outer, '__code__', None) is not reent_target.__code__:
+        _Trigger.fired = True
+        import malt
+        malt.to_graph(reent_target)
+    return 'simpool_trigger'
+
+
+TRIGGER = _Trigger()
+
+
 def make_dual(which):
   # two definitions with the same file and qualified name, different code
   if which:
@@ -342,6 +376,7 @@ def build_universe(lane, u):
   # callees of a.caller, also requested directly (first converted as a callee, then on request - or the reverse)
   add('a.cal_target', a.cal_target, group='caller')
   add('a.helper', a.helper, group='caller')
+  add('a.reent_target', a.reent_target, group='caller')
   duals = [a.make_dual(True), a.make_dual(False)]
   lists['duals'] = duals
   add('a.dual@if', duals[0], group='dual')
@@ -369,7 +404,10 @@ def build_universe(lane, u):
   for f in extra:
     if not any(c is f.__code__ for c in codes):
       codes.append(f.__code__)
+  from malt.impl import api as _api
+  _api.autograph_artifact(a_adders[1])     # one closure of the shared code object is marked "already converted"
   U = {'u': u, 'entries': E, 'mods': {'a': a, 'b': b, 'g': g, 'v1': v1, 'v2': v2},
+       'paths': {'a': pa, 'b': pb, 'v1': pv1, 'v2': pv2},
        'lists': lists, 'sink': sink,
        'code_ids': CodeIds(codes),
        'code_refs': [weakref.ref(c) for c in codes],
@@ -645,10 +683,21 @@ def _ref_call(U, fid, op):
   return _traced_call(_call_thunk(malt, api, converter, e.fn, op), None, op['x'])
 
 
-def _load_fresh(base, U, slot, ver):
+def _load_fresh(base, U, slot, ver, inplace=False):
   name = 'simfresh_%d' % slot
-  path = os.path.join(base, 'fresh', 's%d_v%d' % (slot, ver), name + '.py')
-  common.write_module(path, VER_SRC % {'c1': 1000 * (slot + 1) + 10 * ver, 'c2': ver % 4})
+  text = VER_SRC % {'c1': 1000 * (slot + 1) + 10 * (ver % 10), 'c2': ver % 4}
+  if inplace:
+    # the module file is rewritten IN PLACE with a text of the same size, its
+    # modification time put back, and the module loaded again (edit + reload in
+    # the same second): only the content tells the versions apart
+    path = os.path.join(base, 'fresh', 's%d_inplace' % slot, name + '.py')
+    old = os.stat(path) if os.path.exists(path) else None
+    common.write_module(path, text)
+    if old is not None:
+      os.utime(path, ns=(old.st_atime_ns, old.st_mtime_ns))
+  else:
+    path = os.path.join(base, 'fresh', 's%d_v%d' % (slot, ver), name + '.py')
+    common.write_module(path, text)
   mod = common.load_module(name, path)
   mod.OUT = U['sink']
   mod.K = 3 + ver
@@ -657,7 +706,7 @@ def _load_fresh(base, U, slot, ver):
 
 def _ref_fresh(U, op, base):
   import malt
-  mod = _load_fresh(base, U, op['slot'], op['ver'])
+  mod = _load_fresh(base, U, op['slot'], op['ver'], False)      # the reference reads the text from a file of its own
   try:
     G = malt.to_graph(mod.vf, recursive=op['rec'], experimental_optional_features=_feats(malt, op['feats']))   # canonical spelling
   except Exception as ex:   # noqa: BLE001
@@ -809,7 +858,8 @@ def make_plan(seed, index, tier, sub):
   u = seed % 4 if tier == 'quick' else (seed * 7 + index % 4) % 64
   nfn = 18
   # focus: a few groups per run so that requests collide on cache entries
-  groups = [[0, 1, 8], [2, 3, 4, 9], [5, 6, 7], [10, 11], [12, 13], [14, 15], [16, 18, 19], [17], [24, 25], [20, 21], [22, 23, 24, 25]]
+  groups = [[0, 1, 8], [2, 3, 4, 9], [5, 6, 7], [10, 11], [12, 13], [14, 15], [16, 18, 19, 20], [17], [25, 26], [21, 22],
+            [23, 24, 25, 26], [20, 16]]
   k = rng.choice([1, 1, 2, 2, 3])
   chosen = rng.sample(groups, k)
   fids = sorted(set(f for g in chosen for f in g))
@@ -843,13 +893,18 @@ def make_plan(seed, index, tier, sub):
   if rng.random() < 0.45:
     nslots = rng.choice([1, 1, 2])
     vers = [0] * nslots
+    slot_inplace = [rng.random() < 0.4 for _ in range(nslots)]
+    slot_owner = [rng.randrange(nthreads) for _ in range(nslots)]
     for _ in range(rng.randint(2, 5)):
-      t = rng.randrange(nthreads)
       slot = rng.randrange(nslots)
+      # a file rewritten in place belongs to one thread: a rewrite while another thread still converts the
+      # previous content would be "the file changed under the function" (inspect's documented limit)
+      t = slot_owner[slot] if slot_inplace[slot] else rng.randrange(nthreads)
       vers[slot] += 1
       rec, fi = rng.choice(optsets)
       op = {'op': 'fresh', 'slot': slot, 'ver': vers[slot], 'rec': rec, 'feats': fi,
-            'x': rng.choice(XS[:5]), 'fid': -1, 'twice': rng.random() < 0.6, 'spell': rng.randrange(5)}
+            'x': rng.choice(XS[:5]), 'fid': -1, 'twice': rng.random() < 0.6, 'spell': rng.randrange(5),
+            'inplace': slot_inplace[slot]}
       ops = threads[t]['ops']
       ops.insert(rng.randrange(len(ops) + 1), op)
   # "bulk" op (rare: it is slow): more live converted functions than any plausible cache bound
@@ -873,14 +928,17 @@ def make_plan(seed, index, tier, sub):
       what = rng.choice(['defaults', 'kwdefaults']) if o['fid'] in (5, 6, 7) else 'code'
       threads[t]['ops'].insert(j + 1, {'op': 'mutate', 'fid': o['fid'], 'what': what, 'then': then})
   events = []
-  droppable = [f for f in fids if f in (0, 1, 3, 4, 6, 7, 8, 9, 10, 13, 21)]
+  droppable = [f for f in fids if f in (0, 1, 3, 4, 6, 7, 8, 9, 10, 13, 22)]
   nev = rng.choice([0, 1, 1, 2, 3]) if nthreads > 1 or rng.random() < 0.5 else 0
   for _ in range(nev):
     t = rng.randrange(nthreads)
-    if droppable and rng.random() < 0.7:
+    r = rng.random()
+    if droppable and r < 0.6:
       ev = {'ev': 'drop', 'fid': rng.choice(droppable)}
-    else:
+    elif r < 0.8:
       ev = {'ev': 'gc'}
+    else:
+      ev = {'ev': 'touch', 'mod': rng.choice(['a', 'b', 'v1', 'v2'])}
     ev['thread'] = t
     if rng.random() < 0.6:
       ev['hk'] = rng.randint(1, 120)
@@ -931,6 +989,7 @@ class Run(object):
     self.cache_locks = [l for l in boot.SIM_LOCKS if 'transpiler' in l.site[0]]
     self.slots = {}
     self.bulk_keep = []
+    self.touched = []
     self.abstract = set()
     self.n_fresh = 0
     self.rdir = rdir
@@ -943,7 +1002,15 @@ class Run(object):
   def make_event(self, ev):
     def fire(sim, thread):
       busy = [t for t, op in self.inflight.items() if op is not None]
-      if ev['ev'] == 'gc':
+      if ev['ev'] == 'touch':
+        # the source file of a pool module gets a new modification time (same content)
+        path = self.U['paths'][ev['mod']]
+        st_ = os.stat(path)
+        os.utime(path, ns=(st_.st_atime_ns, st_.st_mtime_ns + 10_000_000_000))
+        self.touched.append((path, st_))
+        self.events_fired.append('touch:%s' % ev['mod'])
+        sim.probe('event_touch')
+      elif ev['ev'] == 'gc':
         gc.collect()
         self.events_fired.append('gc')
         sim.probe('event_gc')
@@ -966,7 +1033,7 @@ class Run(object):
           sim.probe('drop_with_live_twin')
       if busy:
         sim.probe('event_during_request')
-      sim._ev(thread.tid, 'V', ev['ev'], ev.get('fid', ''))
+      sim._ev(thread.tid, 'V', ev['ev'], ev.get('fid', ev.get('mod', '')))
     return fire
 
   # -- one op ------------------------------------------------------------------
@@ -991,7 +1058,9 @@ class Run(object):
       # the old function sits in a cycle with its module dict: it is really
       # freed (and its address becomes reusable) only by a collection
       gc.collect()
-      mod = _load_fresh(self.rdir, self.U, slot, ver)
+      mod = _load_fresh(self.rdir, self.U, slot, ver, bool(op.get('inplace')))
+      if op.get('inplace'):
+        sim.probe('module_rewritten_in_place')
       f = mod.vf
       code_id = id(f.__code__)
       if old_id is not None and code_id == old_id:
@@ -1138,7 +1207,7 @@ class Run(object):
     if self.inj is not None:
       for fp in self.plan['faults']:
         if fp['thread'] == tid and fp['opidx'] == i:
-          fl = faults.Fault(fp['point'], fp['nth'], fp['when'], fp['exc'], ident=ident)
+          fl = faults.Fault(fp['point'], fp['nth'], fp['when'], fp['exc'], ident=faults._thread_key())
           if self.inj.arm(fl):
             armed.append(fl)
     meta = self.op_meta[ident] = {'blocked': False, 'acquired': False, 'transforms0': COUNT['active']['transforms'],
@@ -1427,6 +1496,8 @@ def run_job(lane, job, rdir):
     return {'status': 'harness_error', 'detail': 'reference computation failed: %s' % ex, 'plan': plan}
   outcome = run.execute()
   sim = run.sim
+  if getattr(run.U['mods']['a']._Trigger, 'fired', False):
+    sim.probe('reentrant_conversion_on_same_thread')
   res = {
       'status': 'ok', 'violations': run.violations, 'digest': sim.digest(),
       'steps': sim.steps, 'switches': sim.switches, 'threads': len(plan['threads']),
